@@ -193,6 +193,54 @@ def STree.substL : List STree → STree → List STree
   | c :: cs, inner => STree.subst c inner :: STree.substL cs inner
 end
 
+mutual
+/-- the least common suffix of two shapes (`BroadcastToCommonSuffix` at tree level), `none` when they
+conflict at some node: a leaf gives way to whatever is on the other side; otherwise the nodes must be
+compatible (same kind and arity; the three dict kinds among each other when their key sets agree;
+namedtuple / struct-sequence / custom nodes of the same class with equal payload) and the result keeps
+the *first* operand's node (type, key order, custom entries), children paired by position or by key -/
+def STree.lub : STree → STree → Option STree
+  | .leaf, b => some b
+  | .node i cs, .leaf => some (.node i cs)
+  | .node i cs, .node j ds =>
+      match i.kind with
+      | .leaf => Option.none
+      | .none => if j.kind != .none then Option.none else some (.node i cs)
+      | .tuple | .list | .deque =>
+          if i.kind != j.kind || cs.length != ds.length then Option.none
+          else (STree.lubL cs ds).map (.node i)
+      | .dict | .ordereddict | .defaultdict =>
+          if !j.kind.isDict || !keySetEq i.keys j.keys then Option.none
+          else (STree.lubD i.keys cs j.keys ds).map (.node i)
+      | .namedtuple | .structseq =>
+          if i.kind != j.kind || cs.length != ds.length || i.data != j.data then Option.none
+          else (STree.lubL cs ds).map (.node i)
+      | .custom =>
+          match i.custom, j.custom with
+          | some r, some r' =>
+              if j.kind != .custom || r.cls != r'.cls || r.clsKind != r'.clsKind || cs.length != ds.length
+                  || i.data != j.data then Option.none
+              else (STree.lubL cs ds).map (.node i)
+          | _, _ => Option.none
+def STree.lubL : List STree → List STree → Option (List STree)
+  | [], [] => some []
+  | c :: cs, d :: ds =>
+      match STree.lub c d, STree.lubL cs ds with
+      | some x, some xs => some (x :: xs)
+      | _, _ => Option.none
+  | _, _ => Option.none
+def STree.lubD : List Key → List STree → List Key → List STree → Option (List STree)
+  | [], [], _, _ => some []
+  | k :: ks, c :: cs, oks, ds =>
+      match lookupChild k oks ds with
+      | Option.none => Option.none
+      | some d =>
+          match STree.lub c d, STree.lubD ks cs oks ds with
+          | some x, some xs => some (x :: xs)
+          | _, _ => Option.none
+  | _, _, _, _ => Option.none
+end
+
 /-- entries of the children of a node, as the walkers use them -/
 def NInfo.childEntries (i : NInfo) (arity : Nat) : List Key :=
   (i.toNode arity 0 0).childEntries
